@@ -4,7 +4,7 @@ from pathlib import Path
 
 ROOT = Path(__file__).resolve().parent.parent
 
-T = "Lean 4 proof about an executable model + model/implementation correspondence"
+T = "Lean 4 proof about an executable model + model/implementation correspondence (+ source-text translation where stated)"
 N = ("Trusted: Lean kernel, axioms ⊆ {propext, Classical.choice, Quot.sound} (audited on every run); hand-written Lean model "
      "tied to /repo only by this run's correspondence check (bounded by its generator); Python/float semantics on dyadic "
      "times; third-party engines as stated in DESIGN.md §3.")
@@ -13,7 +13,9 @@ CHECKS = {
     'C01': dict(text='Timing evaluator of the heap model: relation equations, fuel monotonicity, uniqueness of the schedule and the '
                      'implicit-predecessor rule are theorems; the model is run against the real API on random build programs (all 26 '
                      'classes, nesting, unrolling, duration changes) and the relation equations are re-evaluated on the implementation\'s '
-                     'own numbers.', ref='DESIGN.md §4 C01'),
+                     'own numbers. Definedness of all times is a theorem for heaps with an acyclicity certificate, which newCircuit / op / '
+                     'add / copy / add_sub_circuit preserve. The link-start rule, the latest-of-group choice, end time and has_relation are '
+                     'proved equal to their SOURCE TEXT (regenerated mini-Python syntax, interpreter validated against CPython).', ref='DESIGN.md §4 C01, §2.3b'),
     'C02': dict(text='Listing = nodes sorted by path key: permutation of the inserted nodes, parents first, insertion adds exactly one '
                      'entry (theorems); the implementation\'s listing is compared with the model and with a shadow multiset of added '
                      'leaves, causality and stability are checked on its own objects. Known finding R23 (group relation after nested '
@@ -24,21 +26,24 @@ CHECKS = {
     'C04': dict(text='(lead, span) evaluator: span = latest end − earliest start over the node intervals, nested blocks shifted by their '
                      'lead (theorems); implementation (after the R2 repair) compared with the model and with the span recomputed from '
                      'its own reported times on forced and random programs.', ref='DESIGN.md §4 C04'),
-    'C05': dict(text='Per-class copy keeps every field and the relation type (theorems, all 26 classes); graph-level faithfulness is '
+    'C05': dict(text='Per-class copy keeps every field and the relation type (theorems, all 26 classes); graph level: the copy\'s relation tree is '
+                     'the image of the original\'s with every internal relation re-pointed (theorems for flat and nested blocks under the '
+                     'hypotheses that exclude the known findings R3/R24); graph-level faithfulness is also '
                      'checked on the implementation at every copy/nesting/unrolling (sequence, positional relation targets, relative '
                      'schedule, independence under later mutations) and against the model. Known findings R3, R24, R14.', ref='DESIGN.md §4 C05'),
     'C06': dict(text='Unrolling: counts reset, idempotence, untouched outside operations, n·T for blocks whose last-ending operation is a '
                      'leaf and the unrolled multiset are checked on the implementation at every apply_modifiers and against the model; '
-                     'the selection of the latest leaf (pickLatest), n·T for a chain and the heap-level unrolling of flat blocks (count 1, max(1,n)×k leaf nodes, second application adds nothing) are proved. Library concatenation clause evaluated on the '
+                     'the selection of the latest leaf (pickLatest), n·T for a chain and the heap-level unrolling are proved: for every tree-shaped heap (which the API builds) each leaf occurs product-of-enclosing-counts times, all counts are reset, outside objects are untouched, a second application writes nothing (unroll_counts, unroll_twice). Library concatenation clause evaluated on the '
                      'constructors: known finding R5.',
                 ref='DESIGN.md §4 C06'),
     'C07': dict(text='Two-counter acquisition scan: circuit index = position, qubit index = rank, filters and tag partition are theorems '
                      'about the scan the driver executes; the implementation\'s indices and filter getters are compared with the model '
-                     'and with the enumeration predicate. Known findings R3, R15.', ref='DESIGN.md §4 C07'),
+                     'and with the enumeration predicate, with index reads between the mutations. The scan is proved equal to the SOURCE '
+                     'TEXT of AcquisitionRegistry.get_registry_at. Known findings R3, R15.', ref='DESIGN.md §4 C07, §2.3b'),
     'C08': dict(text='Stim export: translate table, detector/observable record targets, export = image of the count-expanded listing and '
                      '= filterMap translate of the listing when all counts are 1 (theorems, any nesting); multiset clause proved relative '
                      'to C06; exports compared instruction-wise with the model before/after unrolling and flattening. Library clause: '
-                     'known finding R5.', ref='DESIGN.md §4 C08'),
+                     'known finding R5. Detector / observable / coordinate-shift instructions proved equal to their SOURCE TEXT.', ref='DESIGN.md §4 C08, §2.3b'),
     'C09': dict(text='Product-state semantics of the exported gate set; protocol record, prepared states, detector and observable values '
                      'proved for ALL cycle counts and ALL computational initial states over a kernel-checked table of 460 descriptions '
                      '(chains ≤ 9 data qubits, every forward layout sub-chain) — partial in the chain length; generator tied to the real '
@@ -48,11 +53,12 @@ CHECKS = {
                      'library heaps (partial: ≤ 110 objects, as constructed); constructors × random duration settings on the '
                      'implementation and through the recorder + model.', ref='DESIGN.md §4 C10'),
     'C11': dict(text='Flatten: leaf multiset, no remaining sub-circuit and idempotence are checked on the implementation at every flatten '
-                     'of implicitly sequenced programs and against the model; flatten_listing_perm / flatten_no_composite are theorems; library '
+                     'of implicitly sequenced programs and against the model; flatten_listing_perm / flatten_no_composite and idempotence (same listing, same schedule, for circuits without group links among the listed operations) are theorems; library '
                      'clause evaluated on the constructors incl. the multi-round one. Known findings R14, R5, R25, R3.', ref='DESIGN.md §4 C11'),
     'C12': dict(text='Index kernels: contiguity, disjointness, tiling, category cover, translation by the cycle length and the estimate '
                      'inverse proved for every rounds list / heralded / calibration flag / repetitions; exhaustive correspondence over all '
-                     'lists of ≤ 4 distinct rounds in {0..5}.', ref='DESIGN.md §4 C12'),
+                     'lists of ≤ 4 distinct rounds in {0..5}. Every member of the three kernel classes is proved equal to its SOURCE TEXT '
+                     '(34 theorems over regenerated mini-Python syntax).', ref='DESIGN.md §4 C12, §2.3b'),
     'C13': dict(text='Per-ancilla tag sequence of the multi-round experiment circuit vs kernel getters: kernel_eq_circuit proved for every '
                      'rounds list; real circuits (d ∈ {2,3}, thorough ≤ 5) compared with real kernels, the Lean tag model and the Lean '
                      'kernel model.', ref='DESIGN.md §4 C13'),
@@ -72,7 +78,7 @@ CHECKS = {
                      'the heap (frame theorem, partial for settledness); real plot_circuit descriptions/transforms compared with the '
                      'model; side-effect clause by before/after and twin runs under foreign ambient durations.', ref='DESIGN.md §4 C18'),
     'C19': dict(text='Channel matching, edge/qubit identity and hash, unique_in_order (33 theorems, full strength, about the definitions '
-                     'the heap model uses); exhaustive correspondence over 12² / 12³ channel identifiers, 17² qubits, 48² edges.',
+                     'the heap model uses); ChannelIdentifier.__eq__ and EdgeIDObj.contains/__eq__ proved equal to their SOURCE TEXT; exhaustive correspondence over 12² / 12³ channel identifiers, 17² qubits, 48² edges.',
                 ref='DESIGN.md §4 C19'),
 }
 for _c in CHECKS.values():
